@@ -9,7 +9,9 @@ PROP = {
              "decodes are compared with the extracted model (client) + specification (server), which get AES-CTR keystreams and "
              "X25519 results as oracle columns and compute SHA-256 in Gallina; 0..5 packets per direction, sizes 0..300 biased to "
              "0,1,3,4,55,56,63,64,119,120,255,256, up to 1.5 KB (20 KB thorough), one 64 KiB payload per run (both directions in "
-             "thorough), server bytes cut at random / tiny / field-boundary write sizes. (b) liteclient.ParsePacket on model-checked "
+             "thorough), server bytes cut at random / tiny / field-boundary write sizes, the pieces of the handshake confirmation sent as "
+             "separate TCP segments (12 ms apart); a family with the 68-byte confirmation cut in two after k bytes, k in "
+             "1,3,4,5,35,36,37,67 (every k in 1..67 in thorough). (b) liteclient.ParsePacket on model-checked "
              "frames under 5 segmentations (single, bytewise, random with empty reads, field boundaries, 4095/4096/4097/1460 blocks): "
              "valid, every truncation, every position x single-bit and single-byte substitution (all 8 bits + 0xff + random in "
              "thorough), sampled corruptions of large frames, length-field attacks (0,1,63,64,65,8MiB-1,8MiB,8MiB+1,2^31,2^32-1 x "
@@ -29,7 +31,10 @@ PROP = {
              "magic, a TL answer magic, auth-nonce magic, payloads of 0,1,3 bytes); Status() and AverageRoundTrip() > 0 at the end; and "
              "histories drop -> reconnect -> traffic ('close: server closes the socket and a later write of the application fails; "
              "'silence: server stops sending and answering pings until the client gives up after 10 s), 3..5 sessions, the application "
-             "reading the channel it took ONCE from Responses() and sending marked packets on every session; number of handshakes, "
+             "reading the channel it took ONCE from Responses() and sending marked packets on every session; a session dropped early "
+             "('close; thorough also 'close-'close and 'silence) whose successor then carries steady numbered traffic for 12 s, i.e. "
+             "outlives every timer of its predecessors; the server delivers every handshake confirmation in two segments (cut after "
+             "4 / 36 / 67 / 1 bytes in turn); number of handshakes, "
              "payloads received on that channel and marked packets decoded per session are compared with the model of "
              "Connection.reader / reconnect. (g) Packet.MagicType on payloads of 0..6 bytes and known magics. Oracles on the implementation: valid frames delivered intact, altered frames "
              "never delivered, truncation ends in EOF, receive loop delivers exactly the intact prefix, both session directions "
@@ -51,7 +56,9 @@ PROP = {
                     "data packet for as long as no gap between arrivals reaches reconnectTimeout and the transport reports no error "
                     "(nothing else ends a session), and whatever any session's reader delivers reaches the channel returned once by "
                     "Responses(); a payload that starts with the pong magic is consumed iff it has exactly 12 bytes; the single-timer reader, the "
-                    "channel-per-handshake and the pong-prefix (len >= 12) designs are refuted in Proofs/AdnlHistory.v. "
+                    "channel-per-handshake, the pong-prefix (len >= 12), the one-Read handshake confirmation and the reader that survives "
+                    "its closed channel are refuted in Proofs/AdnlHistory.v; the confirmation is parsed under every segmentation "
+                    "(C11_confirmation_any_segmentation, C11_session_agrees). "
                     "coq/Properties/C11_gen.v re-checks params offsets 0/32/64/80/96/160, the key-id tag, the ParsePacket bounds and "
                     "operators, marshal/parse/handshake slice bounds and the cipher wiring translated from today's source."),
     'assumptions': ["SHA-256, AES-CTR and X25519 are parameters of the theorems (Section variables); corruption detection is reduced to an exhibited SHA-256 coincidence, not excluded",
